@@ -564,7 +564,7 @@ pub fn check(tier: &str, seed: u64) -> i32 {
                     stats.violations.push(violation(seed, idx, source, expr, probe_seed, *budget, &f, &history));
                 }
                 history.push((expr.clone(), *budget));
-                if idx % 997 == 0 && k == 0 && stats.samples.len() < 6 {
+                if idx % 997 == 0 && k == 0 && idx < 997 * 6 {
                     stats.samples.push((
                         idx,
                         Json::obj()
